@@ -155,6 +155,11 @@ func plGroup(l plL, variant int) *targetgroup.Group {
 		t2 := tl.Clone()
 		t2["__meta_dup"] = "1"
 		g.Targets = append(g.Targets, t2)
+	case 7: // another target, listed twice, in front of this one
+		other := model.LabelSet{model.AddressLabel: "h7:1234", "app": "other"}
+		g.Targets = []model.LabelSet{other, other.Clone(), tl}
+	case 8: // only that other target
+		g.Targets = []model.LabelSet{{model.AddressLabel: "h7:1234", "app": "other"}}
 	case 6:
 		t2 := tl.Clone()
 		if !strings.Contains(strings.TrimPrefix(l.Addr, "["), ":") || strings.HasSuffix(l.Addr, "]") {
@@ -371,7 +376,13 @@ func runPipelineCase(dir string, c plCfg, l plL) plObs {
 		}
 	}
 	// ---- hash stability (C15): rearranged labels, duplicates, another round, a fresh discovery ----
-	for variant := 1; variant <= 6; variant++ {
+	otherHashes := map[string]bool{}
+	if byo, _, err := discoverCount(yaml, []*targetgroup.Group{plGroup(l, 8)}); err == nil {
+		for _, t := range byo {
+			otherHashes[fmt.Sprint(t.ShardTarget.Hash)] = true
+		}
+	}
+	for variant := 1; variant <= 7; variant++ {
 		v := variant
 		if v == 3 {
 			v = 0
@@ -383,7 +394,11 @@ func runPipelineCase(dir string, c plCfg, l plL) plObs {
 		}
 		hs := []string{}
 		for _, t := range by2 {
-			hs = append(hs, fmt.Sprint(t.ShardTarget.Hash))
+			h := fmt.Sprint(t.ShardTarget.Hash)
+			if v == 7 && otherHashes[h] {
+				continue // the other target is not what is compared
+			}
+			hs = append(hs, h)
 		}
 		sort.Strings(hs)
 		if strings.Join(hs, ",") != strings.Join(o.Hashes, ",") {
